@@ -66,6 +66,59 @@ CLAIMED.update({
                  "0, 0.5, 1, 2, 4.", "DESIGN.md 5 C20"),
 })
 
+CLAIMED.update({
+    "C02": other("lossless-flow rules over the response path (loop exit sets, single-yield, pass-through generators), EOF disposition over the CFG, def-use of head fields",
+                 "Decides that the glue between socket and caller is lossless: every read reaches the parser, every event of a batch is dispatched, body loops "
+                 "yield each data event once and end only on the end events, header loops leave only on the final response/101, pass-through generators "
+                 "forward everything, EOF is either fed to an EOF-aware parser or raises, and head fields are delivered unchanged. Segmentation "
+                 "independence of the h11/h2 parsers themselves is not decided.", "DESIGN.md 5 C02"),
+    "C03": other("argument provenance of the request head, lossless-flow rules over the body loops and the frame splitter, guard analysis of default headers",
+                 "Decides that the events handed to h11/h2 are built from exactly the request's method/target/headers/body (HTTP/2 pseudo-headers, filter set "
+                 "{host, transfer-encoding}), each body chunk is sent once and followed by one end marker, END_STREAM agrees with the body routine, default "
+                 "headers are inserted only when absent, and the head is validated before the first write. What h11/h2 emit is not decided.", "DESIGN.md 5 C03"),
+    "C05": other("typestate coverage and pairing rules over the exceptional CFG (cancellation edges at every suspending await, shield scopes, handler matching)",
+                 "For every fault point (await, network/protocol error) decides whether abandoning the request there can leave the queue entry, the connection "
+                 "state machine or a lazily established wrapper in a transient configuration: queue pairing, typestate coverage of the HTTP/1.1 and HTTP/2 "
+                 "request routines, establishment marking of the three wrappers, shielding of recovery awaits, close-once. Reports KF8, KF9, KF17, KF22, KF23 "
+                 "on the pinned tree; the SOCKS establishment handler was repaired.", "DESIGN.md 5 C05"),
+    "C06": other("resource-ownership dataflow over the exceptional CFG, must-use of the closing list, close-delegation census",
+                 "Decides that every stream acquisition is transferred or closed on every path including cancellation (KF11 recorded, KF10 repaired), that "
+                 "evicted connections always reach _close_connections, that every holder of a closeable closes it, that a refused CONNECT closes, and that "
+                 "backends close on TLS failure.", "DESIGN.md 5 C06"),
+    "C07": other("path rules on the queue protocol + blocking-effect analysis under the pool lock + wait-for graph over locks and stream-slot permits",
+                 "Necessary conditions of progress: every queue mutation is followed by the assignment pass, check-before-wait / store-before-set / re-arm, "
+                 "retry handler re-assigns, no blocking operation reachable under the pool lock, and no cycle in the wait-for graph (the HTTP/2 "
+                 "read-lock / stream-slot cycle is KF16). Liveness over all schedules is not decided.", "DESIGN.md 5 C07"),
+    "C08": other("lockset analysis (must-hold at entry = intersection over call sites), re-entry and lock-order graph on the sync tree",
+                 "Lock discipline that thread-safety needs: pool fields only under the pool lock, state transitions under the state lock, no re-entry, no "
+                 "blocking under the pool lock, acyclic lock order (KF16), one common lock for the shared h2 state machine (KF25). All-interleavings "
+                 "correctness is not decided.", "DESIGN.md 5 C08"),
+    "C10": other("predicate partial evaluation over the scheme x proxy matrix, argument provenance of establishment calls, truth tables of protocol selection",
+                 "Decides the origin gates, that host/port of every connect / negotiation / CONNECT / inner connection come from the right origin, TLS iff "
+                 "scheme in {https, wss} in all 16 dispatch cells (KF13 recorded, KF12 repaired), SNI (KF14 repaired), ALPN and the HTTP/2 selection "
+                 "predicate.", "DESIGN.md 5 C10"),
+    "C11": other("taint / provenance with a constructor summary of Request computed from the source, interval folding, reader/writer census of the proxy header list",
+                 "Decides what each proxy hop is built from: forward merge order and absolute-form target, CONNECT isolation from caller data (KF15: the "
+                 "caller's extensions can rewrite the CONNECT target), refusal interval, confinement of Proxy-Authorization, SOCKS arguments and ordering.",
+                 "DESIGN.md 5 C11"),
+    "C12": other("demux-key consistency, slot-accounting dominance and constant folding, paired-update check of the SETTINGS handler, wait-for cycle detection",
+                 "Decides that events are keyed by their own stream id, a slot is acquired before every stream id allocation with exactly one initial permit "
+                 "and bound 100, SETTINGS changes adjust permits by paired updates to min(remote, local), registration precedes the first send, and reports "
+                 "the read-lock / slot wait-for cycle (KF16).", "DESIGN.md 5 C12"),
+    "C13": other("upper-bound provenance of the send_data argument, no-suspension region check on the CFG, loop re-read rule, lossless split, credit-return rule",
+                 "Decides that at most min(window, frame size, len) bytes of the right stream are passed to send_data with no suspension between window read "
+                 "and send, that the wait loop re-reads the window, that the split is lossless, that every DATA frame is acknowledged with its "
+                 "flow-controlled length and flushed, and the 2**24 increments. Completion for every WINDOW_UPDATE schedule is not decided.", "DESIGN.md 5 C13"),
+    "C17": other("lossless-split rule, provenance of the upgrade stream's arguments, truth table of the wrapping condition",
+                 "Decides the upgrade stream's read/write/delegation, that it is built from the connection's stream and h11's trailing data under exactly "
+                 "`101 or (CONNECT and 2xx)`, that the tunnel upgrades the handed-over stream, and that a switched connection can never idle.", "DESIGN.md 5 C17"),
+    "C19": other("literal table agreement, field-coverage census, use-only-through-enforce rule, parser component coverage, host-form typestate, truth tables",
+                 "Decides agreement of the default-port tables, that equality/serialisation cover exactly the constructor's fields, that text parameters only "
+                 "reach storage through enforce_*, that the target reads every component the split function separates (KF18 repaired), IPv6 bracketing at "
+                 "authority sinks (KF19 recorded), the Host port rule and order preservation of the header helpers. RFC 3986 conformance is not decided.",
+                 "DESIGN.md 5 C19"),
+})
+
 ALL = [f"C{i:02d}" for i in range(1, 21)]
 
 
